@@ -68,6 +68,8 @@ enum {
   MYTH_VS_INIT_ATTR_WR,
   /* myth_misc_func.h: per-worker free lists (unsynchronised by design) */
   MYTH_VS_FL_PUSH, MYTH_VS_FL_POP,
+  /* myth_spinlock_func.h: after the unlocking store (accesses that follow a release) */
+  MYTH_VS_SPIN_UNLOCKED,
   MYTH_VS_N_SITES
 };
 
